@@ -14,6 +14,7 @@ import (
 
 	"golang.org/x/tools/go/types/typeutil"
 
+	"verif/checker/internal/interp"
 	"verif/checker/internal/load"
 )
 
@@ -26,7 +27,7 @@ type Source struct {
 	Tree     *parse.Tree
 	Trees    map[string]*parse.Tree // associated templates ({{define}})
 	FuncsVar *types.Var                  // the FuncMap variable
-	Funcs    map[string]*ast.FuncLit     // FuncMap entries by template name
+	Funcs    map[string]ast.Expr         // FuncMap entries by template name: a function literal or the name of a declared moq function
 	FuncsInfo *types.Info
 	NodeCount map[string]int
 }
@@ -37,7 +38,7 @@ type Source struct {
 func Extract(prog *load.Program) (*Source, error) {
 	pk := prog.Moq[load.PkgTemplate]
 	info := pk.TypesInfo
-	src := &Source{Prog: prog, Funcs: map[string]*ast.FuncLit{}, FuncsInfo: info, NodeCount: map[string]int{}}
+	src := &Source{Prog: prog, Funcs: map[string]ast.Expr{}, FuncsInfo: info, NodeCount: map[string]int{}}
 	var parseArgs, funcsArgs []ast.Expr
 	for _, f := range pk.Syntax {
 		ast.Inspect(f, func(n ast.Node) bool {
@@ -115,11 +116,18 @@ func Extract(prog *load.Program) (*Source, error) {
 								return nil, fmt.Errorf("template funcs: non-constant key")
 							}
 							name, _ := strconv.Unquote(ktv.Value.ExactString())
-							fl, ok := ast.Unparen(kv.Value).(*ast.FuncLit)
-							if !ok {
-								return nil, fmt.Errorf("template func %s is not a function literal", name)
+							switch fv := ast.Unparen(kv.Value).(type) {
+							case *ast.FuncLit:
+								src.Funcs[name] = fv
+							case *ast.Ident:
+								fn, ok := info.Uses[fv].(*types.Func)
+								if !ok || !prog.IsMoqPkg(fn.Pkg()) || prog.Decl(fn) == nil {
+									return nil, fmt.Errorf("template func %s is neither a function literal nor a function declared in moq", name)
+								}
+								src.Funcs[name] = fv
+							default:
+								return nil, fmt.Errorf("template func %s is neither a function literal nor a function declared in moq", name)
 							}
-							src.Funcs[name] = fl
 						}
 					}
 				}
@@ -187,7 +195,7 @@ func Extract(prog *load.Program) (*Source, error) {
 	return src, nil
 }
 
-func parseTemplate(text string, funcs map[string]*ast.FuncLit) (*parse.Tree, map[string]*parse.Tree, error) {
+func parseTemplate(text string, funcs map[string]ast.Expr) (*parse.Tree, map[string]*parse.Tree, error) {
 	t := parse.New("moq")
 	t.Mode = parse.SkipFuncCheck
 	trees := map[string]*parse.Tree{}
@@ -241,6 +249,38 @@ func globalVar(info *types.Info, e ast.Expr) (*types.Var, error) {
 		return nil, fmt.Errorf("%s is not a package-level variable", id.Name)
 	}
 	return v, nil
+}
+
+// FuncValue returns the callable for a FuncMap entry and the position of its body.
+func (s *Source) FuncValue(name string) (interp.Value, token.Pos, bool) {
+	switch fv := s.Funcs[name].(type) {
+	case *ast.FuncLit:
+		return &interp.Closure{Lit: fv, Info: s.FuncsInfo}, fv.Pos(), true
+	case *ast.Ident:
+		if fn, ok := s.FuncsInfo.Uses[fv].(*types.Func); ok {
+			pos := fn.Pos()
+			if d := s.Prog.Decl(fn); d != nil {
+				pos = d.Pos()
+			}
+			return &interp.FuncV{Fn: fn}, pos, true
+		}
+	}
+	return nil, token.NoPos, false
+}
+
+// FuncBody returns the syntax of a FuncMap entry's function (type and body).
+func (s *Source) FuncBody(name string) (*ast.FuncType, *ast.BlockStmt, *types.Info) {
+	switch fv := s.Funcs[name].(type) {
+	case *ast.FuncLit:
+		return fv.Type, fv.Body, s.FuncsInfo
+	case *ast.Ident:
+		if fn, ok := s.FuncsInfo.Uses[fv].(*types.Func); ok {
+			if d := s.Prog.Decl(fn); d != nil {
+				return d.Type, d.Body, s.Prog.Info(fn.Pkg())
+			}
+		}
+	}
+	return nil, nil, nil
 }
 
 // Line converts a byte offset in the template text to a repository position.
